@@ -32,7 +32,8 @@ def gen_scenarios(rng, n, spin):
         objective = None
         if rng.random() < 0.4:
             objective = cs.gen_poly(rng, labels, maxdeg=2, maxterms=2, coefs=(-2, 1, 3))
-        scens.append({"labels": labels, "steps": steps, "objective": objective, "arg_form": rng.choice(["dict", "dict", "model", "pc"])})
+        scens.append({"labels": labels, "steps": steps, "objective": objective, "arg_form": rng.choice(["dict", "dict", "model", "pc"]),
+                      "fork": rng.choice([None, None, None, "copy", "add0", "mul1", "ctor", "neg"])})
     return scens
 
 
@@ -58,7 +59,7 @@ def exhaustive_scenarios(polys, spin):
 def run_scenarios(scens, spin):
     recs, owners = [], []
     for si, sc in enumerate(scens):
-        rs = cs.run_scenario(si, sc["steps"], spin, sc["labels"], len(recs), objective=sc["objective"], arg_form=sc["arg_form"])
+        rs = cs.run_scenario(si, sc["steps"], spin, sc["labels"], len(recs), objective=sc["objective"], arg_form=sc["arg_form"], fork=sc.get("fork"))
         for r in rs:
             owners.append(si)
         recs += rs
@@ -66,7 +67,7 @@ def run_scenarios(scens, spin):
 
 
 def describe(sc):
-    return {"labels": [repr(l) for l in sc["labels"]], "objective": repr(sc["objective"]), "arg_form": sc["arg_form"],
+    return {"labels": [repr(l) for l in sc["labels"]], "objective": repr(sc["objective"]), "arg_form": sc["arg_form"], "fork": sc.get("fork"),
             "steps": [{k: (repr(v) if k in ("P", "bounds") else v) for k, v in st.items() if k != "bounds_rec"} for st in sc["steps"]]}
 
 
